@@ -285,8 +285,19 @@ LSTerms ==
 \* ---------------------------------------------------------------------------
 \* operator mixes per feature family for logic detection (C13)
 Ss == Sym("s", TString)
+\* functions of two / three parameters whose RETURN sort occurs nowhere else in the formula
+F2R == TFun(TReal, <<TInt, TInt>>)
+F2V == TFun(TBV(8), <<TInt, TInt>>)
+F2A == TFun(TArray(TInt, TInt), <<TSs, TSs>>)
+F3S == TFun(TSs, <<TInt, TInt, TInt>>)
+F2S == TFun(TString, <<TBool, TBool>>)
 LGTerms ==
-    {Op("equals", <<Op("int_to_str", <<Xx>>), Op("int_to_str", <<Yy>>)>>),
+    {Op("not", <<Op("equals", <<App("f2r", F2R, <<Xx, Yy>>), App("f2r", F2R, <<Yy, Xx>>)>>)>>),
+     Op("equals", <<App("f2v", F2V, <<Xx, Yy>>), App("f2v", F2V, <<Yy, Xx>>)>>),
+     Op("equals", <<App("f2a", F2A, <<K1s, K2s>>), App("f2a", F2A, <<K2s, K1s>>)>>),
+     Op("equals", <<App("f3s", F3S, <<Xx, Yy, Xx>>), App("f3s", F3S, <<Yy, Xx, Yy>>)>>),
+     Op("equals", <<App("f2s", F2S, <<P, Qs>>), App("f2s", F2S, <<Qs, P>>)>>),
+     Op("equals", <<Op("int_to_str", <<Xx>>), Op("int_to_str", <<Yy>>)>>),
      Op("equals", <<Op("int_to_str", <<Xx>>), Ss>>),
      Op("le", <<Op("str_length", <<Ss>>), IntC(3)>>), Op("lt", <<Op("str_to_int", <<Ss>>), Xx>>),
      Op("equals", <<Op("str_indexof", <<Ss, StrC(<<97>>), IntC(0)>>), IntC(1)>>),
